@@ -26,6 +26,15 @@ master, are further processes holding - or inheriting - a Pidfile object on the 
                    absent or names A and "<pidfile>.2" never names A; at every quiescent point <pidfile> names A for
                    as long as A runs.  Whether B survives the HUP is not judged (on the unchanged tree it gives up:
                    the file it wants names another live process).
+
+Re-spelling histories (one pid file, several spellings of its path): an administrator edits the `pidfile` setting to another
+name of the SAME file - through a symlinked directory (/var/run -> /run), relative instead of absolute, with "./", a doubled
+slash or "x/../x" in it, or through a symbolic link to the file itself - and sends SIGHUP.  reload() then holds two Pidfile
+objects (the former one and the one for the new name) that mean one file.  A master is taken along a chain of such names,
+one SIGHUP each; after every reload has completed (former workers gone, new workers booted) the pid file exists under the
+CONFIGURED name and names the master; whenever it is read in between it is absent or names the master.  Then a second
+server is started on yet another spelling of the configured file while the first runs: it is refused and the file stays.
+After SIGTERM the file is gone under the configured name.
 """
 import os
 import signal
@@ -121,6 +130,8 @@ def scenario(run, e4, sc):
         return takeover(run, e4, sc)
     if sc["kind"] == "upgrade":
         return upgrade(run, e4, sc)
+    if sc["kind"] == "respell":
+        return respell(run, e4, sc)
     wc = sc["class"]
     info = {"events": []}
     settings = {"graceful_timeout": 3, "timeout": 3 if "timeout" in sc["events"] else 10}
@@ -454,6 +465,144 @@ def upgrade(run, e4, sc):
         srv.cleanup()
 
 
+# ---- one pid file, several spellings of its path ---------------------------------------------------------------------------
+
+SPELLINGS = ("abs", "dirlink", "dot", "dslash", "dotdot", "rel", "filelink")
+
+
+def spell(base, form, name="master.pid"):
+    """A name of <base>/run/<name>.  <base>/run-link is a symbolic link to the directory run; `rel` is relative to the directory
+    the master runs in (<base>); `filelink` is <base>/run/alias.pid, a symbolic link to master.pid in the same directory."""
+    if form == "abs":
+        return os.path.join(base, "run", name)
+    if form == "dirlink":
+        return os.path.join(base, "run-link", name)
+    if form == "dot":
+        return os.path.join(base, "run", ".", name)
+    if form == "dslash":
+        return os.path.join(base, "run") + "//" + name
+    if form == "dotdot":
+        return os.path.join(base, "run", "..", "run", name)
+    if form == "rel":
+        return os.path.join("run", name)
+    if form == "filelink":
+        return os.path.join(base, "run", "alias.pid")
+    raise ValueError(form)
+
+
+def respell(run, e4, sc):
+    """See the module text. sc["chain"]: spellings; the master starts with the first, every further one is a SIGHUP after the
+    setting was edited.  -> (violations, reason why nothing could be judged | None, info)"""
+    wc, chain = sc["class"], sc["chain"]
+    info = {"events": []}
+    settings = {"graceful_timeout": 3, "timeout": 10}
+    if wc == "gthread":
+        settings["threads"] = 2
+    srv = e4.Server("c17s", worker_class=wc, workers=2, bind="unix", settings=settings)
+    base = srv.dir
+    os.mkdir(os.path.join(base, "run"), 0o755)
+    os.symlink("run", os.path.join(base, "run-link"))
+
+    def full(name):                      # the configured name as the master (working directory <base>) resolves it
+        return os.path.join(base, name)
+
+    def same_file(a, b):
+        return os.path.realpath(full(a)) == os.path.realpath(full(b))
+
+    cur = spell(base, chain[0])
+    srv.write_conf(pidfile=cur)
+    try:
+        srv.start()
+        if not srv.wait_workers(2, 25):
+            return [], "server did not boot: %s" % (srv.stderr()[-300:] or srv.error_log()[-300:]), info
+        try:
+            if os.readlink("/proc/%d/cwd" % srv.master_pid) != base:
+                return [], "the master does not run in its scratch directory (relative names would mean something else)", info
+        except OSError:
+            return [], "the master's working directory cannot be read", info
+        watch = Watch(e4, srv, full(cur))
+        if not watch.settled(run, "live_pidfile_after_boot"):
+            return watch.v, None, info
+        form = chain[0]
+
+        def second_instance():
+            """A second server on another spelling of the configured file. -> reason why it could not be judged | None"""
+            watch.event = "second-instance-other-spelling"
+            here = os.path.realpath(full(cur))
+            alt = os.path.join(base, "run" if form == "dirlink" else "run-link", os.path.basename(here))
+            if os.path.realpath(alt) != here or alt == full(cur):
+                return "no second spelling of %r" % cur
+            o = e4.Server("c17t", worker_class=wc, workers=1, bind="unix", settings={"graceful_timeout": 2, "timeout": 10})
+            try:
+                o.write_conf(pidfile=alt)
+                o.start()
+                st = watch.wait(lambda: o.wait_exit(o.master_pid, 0.05) or
+                                [e for e in o.events() if e["kind"] in ("on_starting", "when_ready")], 25)
+                info["second_instance"] = (alt, "exited" if isinstance(st, tuple) else "started" if st else "neither")
+                if isinstance(st, list):
+                    watch.v.append(("live-second-instance-started-on-live-pidfile/other-spelling",
+                                    "a second master (pid %d, pidfile = %r) got past its pid file check while master %d (pidfile = %r, the "
+                                    "same file) was running; history of the first (setting before, after, ..): %s; file now: %r" % (
+                                        o.master_pid, alt, srv.master_pid, cur, info["events"], read_file(here))))
+                elif isinstance(st, tuple):
+                    run.count("live_second_instance_refused_other_spelling")
+                else:
+                    return "the second instance neither exited nor started within 25 s"
+            finally:
+                o.cleanup()
+            return None
+
+        for form in chain[1:]:
+            nxt = spell(base, form)
+            if form == "filelink" and not os.path.islink(nxt):
+                # the symbolic link to the pid file is put there before the setting is edited (an administrator's alias)
+                target = os.path.basename(os.path.realpath(full(cur)))
+                if target == "alias.pid":
+                    return watch.v, "the chain names the link after the link was replaced", info
+                os.symlink(target, nxt)
+            same = same_file(cur, nxt)
+            watch.event = "hup-respelled-%s" % form
+            before = srv.worker_pids()
+            n_reload = len([e for e in srv.events() if e["kind"] == "on_reload"])
+            srv.write_conf(pidfile=nxt)
+            # from here on the file is judged under both names' common meaning: while the reload runs it is absent or the master's
+            watch.path = full(nxt)
+            srv.signal(signal.SIGHUP)
+            ok = watch.wait(lambda: all_gone(e4, before) and booted_workers(srv, srv.workers, exclude=before), 20)
+            info["events"].append((cur, nxt, "same file" if same else "another file", bool(ok)))
+            if not ok:
+                if watch.v:
+                    return watch.v, None, info
+                if not e4.alive(srv.master_pid):
+                    return [("live-master-exited-without-cause", "during the reload after `pidfile` was re-spelled from %r to %r: %s" % (
+                        cur, nxt, (srv.stderr() or srv.error_log())[-300:]))], None, info
+                return watch.v, "the pool did not settle after the reload (workers %s, before %s)" % (srv.worker_pids(), before), info
+            if len([e for e in srv.events() if e["kind"] == "on_reload"]) != n_reload + 1:
+                return watch.v, "the reload was not seen in the event log", info
+            time.sleep(0.15)
+            if not watch.settled(run, "live_pidfile_after_hup_respelled_same_file" if same else "live_pidfile_after_hup_moved"):
+                v = [(m, t + " | `pidfile` was %r, edited to %r (%s), then SIGHUP; the reload had completed (workers %s replaced "
+                      "by %s)" % (cur, nxt, "the same file" if same else "another file", before, srv.worker_pids()))
+                     for m, t in watch.v]
+                if e4.alive(srv.master_pid):
+                    # what this means for exclusivity: a second starter on that file, while the master runs
+                    cur, watch.v = nxt, []
+                    second_instance()
+                    v += watch.v
+                return v, None, info
+            cur = nxt
+        reason = second_instance()
+        if watch.v or reason:
+            return watch.v, reason, info
+        time.sleep(0.1)
+        if not watch.settled(run, "live_pidfile_after_second_instance"):
+            return watch.v, None, info
+        reason = stop_and_check(run, e4, srv, watch, full(cur), info)
+        return watch.v, reason, info
+    finally:
+        srv.cleanup()
+
+
 EVENTS = ["ttou", "ttin", "hup", "kill", "second_instance"]
 
 
@@ -464,7 +613,9 @@ def plan(run, tier, seed):
                 # upgrade histories
                 "live_upgrade_attempts_without_start_dir", "live_pidfile_after_failed_upgrade",
                 "live_workers_untouched_by_failed_upgrade", "live_pidfile_after_usr2", "live_pidfile_after_hup_to_new_master",
-                "live_pidfile_after_new_master_gone")
+                "live_pidfile_after_new_master_gone",
+                # one pid file, several spellings
+                "live_pidfile_after_hup_respelled_same_file", "live_pidfile_after_hup_moved", "live_second_instance_refused_other_spelling")
     classes = ["sync", "gthread"] + (["gevent", "eventlet"] if tier == "thorough" else [])
     out = []
     for i, wc in enumerate(classes):
@@ -488,6 +639,17 @@ def plan(run, tier, seed):
     else:
         out.append({"kind": "upgrade", "history": "start-dir-gone", "class": classes[seed % 2], "how": ("rmdir", "rename")[(seed // 2) % 2]})
         out.append({"kind": "upgrade", "history": "hup-new-master", "class": classes[(seed + 1) % 2], "then": ("term", "quit")[(seed // 2) % 2]})
+    # one pid file, several spellings: two masters (thorough: two per class); between them every spelling is both left and taken up
+    for j, wc in enumerate(classes if tier == "thorough" else classes[:2]):
+        k = (seed + 2 * j) % 6
+        forms = list(SPELLINGS[:6][k:] + SPELLINGS[:6][:k])
+        if tier == "thorough":
+            out.append({"kind": "respell", "class": wc, "chain": forms + [forms[0]]})
+            out.append({"kind": "respell", "class": wc, "chain": [forms[3], forms[1], forms[5], "filelink", forms[2]]})
+        elif (seed + j) % 2 == 0:
+            out.append({"kind": "respell", "class": wc, "chain": forms[:4]})
+        else:
+            out.append({"kind": "respell", "class": wc, "chain": [forms[3], forms[4], forms[5], "filelink", forms[0]]})
     return [{"kind": "live", "scenario": dict(sc, idx=i), "seed": seed, "tier": tier} for i, sc in enumerate(out)]
 
 
@@ -499,7 +661,7 @@ def shard(run, sh):
         v, reason, info = scenario(run, e4, sc)
         if reason is None or v:
             break
-    what = [sc["history"], sc.get("how"), sc.get("then")] if sc["kind"] == "upgrade" else sc.get("events")
+    what = [sc["history"], sc.get("how"), sc.get("then")] if sc["kind"] == "upgrade" else sc.get("events") or sc.get("chain")
     run.case(("live", sc["kind"], sc["class"], str(what), bool(sc.get("max_requests"))))
     run.count("live_scenarios")
     for mech, summary in v:
